@@ -12,16 +12,20 @@ abbrev Bytes := List UInt8
 
 /-! ### lines -/
 
-/-- split after every newline; `cur` = the current, still unterminated line.
-    Result: the complete lines (each ends in its only '\n') and the unterminated rest. -/
-def splitAux : Bytes → Bytes → List Bytes × Bytes
-  | [], cur => ([], cur)
-  | b :: bs, cur =>
-    if b = 10 then ((cur ++ [10]) :: (splitAux bs []).1, (splitAux bs []).2)
-    else splitAux bs (cur ++ [b])
+/-- split after every newline: the complete lines (each ends in its only '\n') and the
+    unterminated rest.  A byte other than newline joins the first line of what follows it (or
+    the rest, if no line follows). -/
+def split : Bytes → List Bytes × Bytes
+  | [] => ([], [])
+  | b :: bs =>
+    if b = 10 then ([10] :: (split bs).1, (split bs).2)
+    else
+      match split bs with
+      | ([], t) => ([], b :: t)
+      | (l :: ls, t) => ((b :: l) :: ls, t)
 
-def lines (s : Bytes) : List Bytes := (splitAux s []).1
-def tail (s : Bytes) : Bytes := (splitAux s []).2
+def lines (s : Bytes) : List Bytes := (split s).1
+def tail (s : Bytes) : Bytes := (split s).2
 
 /-! ### labels (C06) -/
 
